@@ -228,6 +228,7 @@ impl Machine {
     fn choose_edge(&mut self, f: &Function, block: usize) -> StepOut {
         let mut enabled = Vec::new();
         let mut total = 0;
+        let mut first_fault: Option<Fault> = None;
         for e in f.edges() {
             if e.head() != block {
                 continue;
@@ -238,18 +239,24 @@ impl Machine {
                 Some(c) => match self.eval(c) {
                     Ok(v) => {
                         if v.bits != 1 {
-                            return StepOut::Fault(Fault::Sort);
-                        }
-                        if v.is_one() {
+                            first_fault.get_or_insert(Fault::Sort);
+                        } else if v.is_one() {
                             enabled.push((e.head(), e.tail()));
                         }
                     }
-                    Err(fault) => return StepOut::Fault(fault),
+                    Err(fault) => {
+                        first_fault.get_or_insert(fault);
+                    }
                 },
             }
         }
         if total == 0 {
             return StepOut::Terminal;
+        }
+        if let Some(fault) = first_fault {
+            // one guard cannot be evaluated: an error if nothing else is enabled; if another guard
+            // holds the program is outside the well-formed fragment (not judged by callers)
+            return StepOut::Fault(if enabled.is_empty() { fault } else { Fault::AmbiguousGuards });
         }
         match enabled.len() {
             0 => StepOut::Fault(Fault::NoGuard),
